@@ -12,6 +12,12 @@ CLAIMED = {
  "C19": dict(cat="proof", ref="5-C19",
    text="Contracts on get_reward, learn, get_step_size, policy, reset, __init__ proved from the source for all numbers of actions, all estimates/counts/rewards, every outcome of every random draw: update rule with exact step size, frame (all other estimates and counts unchanged), valid action indices, greedy choice when eps <= 0, reward formula and reference update.",
    note="Real arithmetic; Generator.random/choice and np.argmax are assumed library contracts; determinism is expressed through the functional generator model (value = function of generator state)."),
+ "C17": dict(cat="proof", ref="5-C17",
+   text="Contracts on the real get_closest and digitize_data proved for grids and value arrays of ANY length: every output is an exact grid element (by indexing) at minimal distance over the whole grid, element-wise, column by column with each column's own grid, shape preserved, inputs not written (frame). Vectorised NumPy code is lifted pointwise, so the proof covers every element. Idempotence follows from minimality (distance 0).",
+   note="Minimality is proved in REAL arithmetic; np.searchsorted / fancy indexing / masked in-place update are assumed library contracts. IEEE rounding of the distance subtraction is NOT covered by the proof: a bounded stand-in (labelled bounded) runs the real functions with exact rational distances and reports the float-tie class as a known finding."),
+ "C12": dict(cat="proof", ref="5-C12",
+   text="Contract on the real BaseSampler.sample proved against an ABSTRACT (uninterpreted) sample_batch - i.e. for every scripted or random generator, every history, batch size, dimension and pass budget: shape preserved; first asked for batch_size, then each time for exactly the number of repeats found (>0); at most max_deduplication_passes redraws; with budget left the returned batch has no repeat against history or itself; rows never reported as repeats equal the first draw; each pass substitutes exactly the reported rows by the redraw rows (statement contract); history arrays not written.",
+   note="find_and_get_duplicates (np.unique(axis=0)/argwhere pipeline) is an ASSUMED contract, not proved: its bounded stand-in enumerates small histories/batches over several float alphabets on the real function and a scripted-generator stand-in replays whole sample() runs against reference semantics; both are labelled bounded and not counted as discharged."),
 }
 checks = []
 for p in props:
